@@ -54,7 +54,7 @@ ASSUMPTIONS = ['a mutator step is one control-flow path of the regenerated table
 TRUSTED_EXTRA = ['translator harness/c18_py2lean.py (Python `ast` -> event paths) and the syntax subset it accepts',
                  'sys.settrace line events identify the executed statements']
 
-DEPTH3_ONLY = ('M3', 'Q2', 'P2', 'Pr2', 'S3dd', 'S23bm')
+DEPTH3_ONLY = ('M3', 'Q2', 'P2', 'Pr2', 'S3dd', 'S23bm', 'S0du', 'S3du')
 GEN_FILE = os.path.join(C.LEAN, 'PMV', 'Gen', 'EventPaths.lean')
 
 
